@@ -60,7 +60,8 @@ Definition enc_session (r : session_result) : list (list N) :=
   ([sr_kind r; sr_code r] ++ enc_state zero_state (sr_state r)
    ++ [sr_ticks r; sr_execs r; sr_cmds r; match sr_dbg r with Some _ => 1 | None => 0 end;
        N.of_nat (length bps)] ++ flat_map (fun b : N * bool => [fst b; if snd b then 1 else 0]) bps)
-  :: List.map (fun line => 126 :: line) (sr_err r).
+  :: List.map (fun line => 126 :: line)
+       (filter (fun line => match line with [] => false | _ => true end) (sr_err r)).   (* empty lines are not compared *)
 
 Definition run_dbg (args : list N) : list (list N) :=
   let feat := negb (hdN args =? 0) in
